@@ -84,6 +84,10 @@ class ExecGen:
         if c < 0.75:
             return self.site('num')
         op = r.choice(['+', '-', '*', '+'])
+        if op == '*':
+            # one factor is always a small literal: a variable squared in a long loop makes CPython's arbitrary-
+            # precision integers (host functions and arrayLength answer with ints) double their size every iteration
+            return binop(op, self.num_expr(scope, depth + 1), num(r.randint(0, 9)))
         return binop(op, self.num_expr(scope, depth + 1), self.num_expr(scope, depth + 1))
 
     def cond_expr(self, scope, depth=0, kind='cond'):
